@@ -59,11 +59,11 @@ pub fn map_oracle(v: &mut Visit) -> Vec<(String, String)> {
 pub fn run(tier: &str) -> i32 {
     let rep = Report::new("C04", tier, "model_checking");
     let thorough = rep.thorough();
-    rep.rule("explicit-state BFS over histories of add(id,c) / remove(id) / save+reopen(sync|async reader), one search per alphabet variant (see 'searches'): variant 0 = unrelated contents AA, BB(, A); variant 1 = related contents A, A+NUL(, NUL) - proper prefix and suffix, concatenation of two others, trailing zero byte; both to fix-point from all initial states (fresh sync/async per internal compression, three foreign archives over the same contents x both readers, four range-filtered opens); quick only: variant 2 = the three related contents over ids 0,1,2,5 from two fresh objects, all histories of at most 5 operations; every transition executed twice (with and without lookups interleaved between operations); oracle in every state: lookups by id and by coordinates, sorted listing, count against a BTreeMap, and the same again after a refused add_tile(id, <empty>) for every id; non-trivial = states with >=1 tile; distinct = canonical states (hook snapshot + backing digest + flavour)");
+    rep.rule("explicit-state BFS over histories of add(id,c) / remove(id) / save+reopen(sync|async reader), one search per alphabet variant (see 'searches'): variant 0 = unrelated contents AA, BB(, A); variant 1 = related contents A, A+NUL(, NUL) - proper prefix and suffix, concatenation of two others, trailing zero byte; both to fix-point from all initial states (fresh sync/async per internal compression, three foreign archives over the same contents x both readers, four range-filtered opens); quick only: variant 2 = the three related contents over ids 0,1,2,5 from two fresh objects, all histories of at most 5 operations; variant 3 (both tiers) = two unrelated contents over the four adjacent ids 0,1,2,3 from fresh objects (alternating contents A,B,A,B on consecutive ids; quick: one object, all histories of at most 6 operations; thorough: two objects, to fix-point); every transition executed twice (with and without lookups interleaved between operations); oracle in every state: lookups by id and by coordinates, sorted listing, count against a BTreeMap, and the same again after a refused add_tile(id, <empty>) for every id; non-trivial = states with >=1 tile; distinct = canonical states (hook snapshot + backing digest + flavour)");
     rep.assume("state merging: two objects with equal hook snapshots, equal backing bytes and equal API flavour differ only in hash-map iteration order, which no transition or observation used here depends on (tile_ids() is compared sorted); byte-level dependence on iteration order is C16's subject");
     rep.assume("alphabets beyond the stated ids/contents and random long sequences are not explored");
     let cap = if thorough { 3_000_000 } else { 400_000 };
-    let variants: &[u8] = if thorough { &[0, 1] } else { &[0, 1, 2] };
+    let variants: &[u8] = if thorough { &[0, 1, 3] } else { &[0, 1, 2, 3] };
     let mut searches = Vec::new();
     let (mut states, mut transitions, mut merged, mut max_depth, mut obs) = (0u64, 0u64, 0u64, 0usize, 0u64);
     let mut all_complete = true;
